@@ -102,4 +102,75 @@ theorem stored_is_acknowledged (es : List (Ev α)) (s : St α) :
       · right; exact ⟨e, by simp, by rw [h]; exact h2⟩
     · right; exact ⟨e', by simp [he'], h'⟩
 
+/-! ### whole histories: resume / restart equivalence, read-only commands, fault-free runs -/
+
+theorem run_append (s : St α) (es fs : List (Ev α)) : run s (es ++ fs) = run (run s es) fs := by
+  simp [run, List.foldl_append]
+
+/-- a command that does not touch permanent memory changes neither memory nor storage, whatever it answers and
+    however the callbacks would have behaved (no store is issued at all) -/
+theorem readonly_untouched (s : St α) (e : Ev α) (ha : e.altered = none) :
+    (respond s e).1.live = s.live ∧ (respond s e).1.stored = s.stored := by
+  unfold respond step
+  ev_cases e
+
+/-- **re-creation from the blobs**: at any point of any history at which the TPM is not in its failed state, a
+    TPM restarted from what storage holds is in exactly the state of the uninterrupted one — so it answers every
+    later history identically -/
+theorem tpm12_restart_equiv (es fs : List (Ev α)) (s : St α) (h : Sync s) (hnf : (run s es).failed = false) :
+    run (restart (run s es)) fs = run (run s es) fs := by
+  have hs := sync_run es s h
+  have : restart (run s es) = run s es := by
+    rcases hs with hf | hl
+    · rw [hnf] at hf; cases hf
+    · cases hr : run s es with
+      | mk live stored failed =>
+        rw [hr] at hl hnf
+        simp only at hl hnf
+        simp [restart, hl, hnf]
+  rw [this]
+
+/-- when the TPM IS in its failed state, a restart still comes back with what storage holds, and that is a state
+    some command was acknowledged with (or the initial one): nothing unacknowledged survives a power cycle -/
+theorem restart_after_any_history (es : List (Ev α)) (s : St α) :
+    (restart (run s es)).live = s.stored ∨
+      ∃ e ∈ es, e.altered = some (restart (run s es)).live ∧ e.rcIn = 0 ∧ e.storeOk = true :=
+  stored_is_acknowledged es s
+
+/-- the failed state is sticky over whole histories -/
+theorem failed_sticky_run (es : List (Ev α)) (s : St α) (h : s.failed = true) : (run s es).failed = true := by
+  induction es generalizing s with
+  | nil => exact h
+  | cons e es ih => exact ih _ (failed_sticky s e h)
+
+/-- without storage faults and without an ordinal returning `TPM_FAIL` itself, the TPM never enters the failed
+    state and memory equals storage after every history -/
+theorem faultfree_run (es : List (Ev α)) (s : St α) (hnf : s.failed = false) (hl : s.live = s.stored)
+    (hok : ∀ e ∈ es, e.storeOk = true ∧ e.loadOk = true ∧ e.auditOk = true ∧ e.rcIn ≠ TPM_FAIL) :
+    (run s es).failed = false ∧ (run s es).live = (run s es).stored := by
+  induction es generalizing s with
+  | nil => exact ⟨hnf, hl⟩
+  | cons e es ih =>
+    obtain ⟨h1, h2, h3, h4⟩ := hok e (by simp)
+    have hstep : (respond s e).1.failed = false ∧ (respond s e).1.live = (respond s e).1.stored := by
+      unfold respond step
+      ev_cases e
+    exact ih _ hstep.1 hstep.2 (fun e' he' => hok e' (by simp [he']))
+
+/-- a response code of success is only ever given by a TPM whose storage holds its memory (the converse direction
+    of the storage-fault clause, over any history from a synchronized start) -/
+theorem success_implies_synced (es : List (Ev α)) (s : St α) (e : Ev α) (h : Sync s)
+    (hnf : (run s es).failed = false) (hrc : (respond (run s es) e).2 = 0) :
+    (respond (run s es) e).1.live = (respond (run s es) e).1.stored := by
+  have hs := sync_run es s h
+  rcases hs with hf | hl
+  · rw [hnf] at hf; cases hf
+  · exact (tpm12_ack_durable _ e hl hrc).1
+
+/-! non-vacuity: concrete histories that meet the hypotheses above -/
+example : (run ({ live := 1, stored := 1 } : St Nat) [{ altered := some 2, rcIn := 0 }, { altered := some 3, rcIn := 5 }]) =
+    { live := 2, stored := 2, failed := false } := by decide
+example : (run ({ live := 1, stored := 1 } : St Nat) [{ altered := some 2, rcIn := 0, storeOk := false }]).failed = true := by decide
+example : (restart (run ({ live := 1, stored := 1 } : St Nat) [{ altered := some 2, rcIn := 0, storeOk := false }])).live = 1 := by decide
+
 end TpmVerif.Props.C19
